@@ -945,3 +945,56 @@ def c13_profile_call_wiring(tier, rng):
                 viol.append({"obligation": "C13.profile_call_wiring.exon.unrequested", "inputs": {"count_exons": False}, "observed": "exon profile built", "required": "not built"})
     return {"obligations": obl, "discharged": dis, "violations": viol[:4], "cases": obl, "exhaustive": True,
             "bound": "2 settings x 4 tail position pairs x 2-3 constructors", "samples": [{"polya": 111, "polyt": 222}]}
+
+
+# ---- split exons: the annotated exons cut at every annotated exon border ---------------------------------------------------------------------------------
+def _split_exons_expected(exons):
+    """position-set definition: a split exon is a maximal run of covered positions without an annotated exon border inside it (a border lies
+    between p and p + 1 when some exon ends at p or starts at p + 1)"""
+    covered = sorted({p for a, b in exons for p in range(a, b + 1)})
+    ends = {b for _a, b in exons}
+    starts = {a for a, _b in exons}
+    out, cur = [], None
+    for p in covered:
+        if cur is None:
+            cur = [p, p]
+        elif p == cur[1] + 1 and cur[1] not in ends and p not in starts:
+            cur[1] = p
+        else:
+            out.append(tuple(cur)); cur = [p, p]
+    if cur is not None:
+        out.append(tuple(cur))
+    return out
+
+
+def replay_split_exons(d):
+    gi = native.repo_import("src/gene_info.py")
+    exons = [tuple(x) for x in d["inputs"]["exons"]]
+    got = list(gi.GeneInfo.split_exons(list(exons)))
+    return got == _split_exons_expected(exons), "exons %s: split_exons -> %s, position sets -> %s" % (exons, got, _split_exons_expected(exons))
+
+
+@finite("C13.split_exons", ["C13", "C01", "C19"], note="the real GeneInfo.split_exons on every set of 1-4 distinct exons over the coordinates 1..6 (thorough: 1..7), as sorted "
+        "by the caller: the split exons are exactly the maximal runs of covered positions without an annotated exon border inside")
+def c13_split_exons(tier, rng):
+    import itertools
+    gi = native.repo_import("src/gene_info.py")
+    u = 6 if tier == "quick" else 7
+    ivs = [(a, b) for a in range(1, u + 1) for b in range(a, u + 1)]
+    obl = dis = 0
+    viol = []
+    for n in (1, 2, 3, 4):
+        for exons in itertools.combinations(ivs, n):
+            obl += 1
+            want = _split_exons_expected(exons)
+            try:
+                got = list(gi.GeneInfo.split_exons(sorted(exons)))
+            except Exception as e:
+                got = "%s: %s" % (type(e).__name__, e)
+            if got == want:
+                dis += 1
+            elif len(viol) < 3:
+                viol.append({"obligation": "C13.split_exons.%s" % "_".join("%d-%d" % x for x in exons), "inputs": {"exons": list(exons)},
+                             "observed": str(got), "required": str(want), "replay_call": "contracts.c_profiles:replay_split_exons"})
+    return {"obligations": obl, "discharged": dis, "violations": viol, "cases": obl, "exhaustive": True,
+            "bound": "all sets of 1-4 distinct exons over 1..%d" % u, "samples": [{"exons": [(1, 4), (3, 4)], "split": [(1, 2), (3, 4)]}]}
